@@ -33,7 +33,8 @@ var policyKinds = []schema.Change{
 }
 
 // apiOnlyKinds are change types of schema/migrate.go that the differs emit but the project file
-// cannot disable. They are probed (DiffSkipChanges accepts any Change) and reported, not judged.
+// cannot disable. schema.DiffSkipChanges ("skips the given change types") accepts any Change, so at
+// the API boundary they are judged too, as singletons, under their own keys (skip-api|…).
 var apiOnlyKinds = []schema.Change{
 	&schema.AddPrimaryKey{}, &schema.DropPrimaryKey{}, &schema.ModifyPrimaryKey{},
 	&schema.AddCheck{}, &schema.DropCheck{}, &schema.ModifyCheck{},
@@ -132,6 +133,10 @@ func modTable(name string, ops []string, rng *rand.Rand) (from, to Tbl) {
 			from.Chks = append(from.Chks, Chk{N: "k_drop_" + name, X: "id > 1"})
 		case "modpk":
 			to.PK = []string{"id", "keep"}
+		case "addpk":
+			from.PK = nil
+		case "droppk":
+			to.PK = nil
 		case "cmt":
 			from.Cmt, to.Cmt = "old", "new"
 		}
@@ -139,7 +144,7 @@ func modTable(name string, ops []string, rng *rand.Rand) (from, to Tbl) {
 	return
 }
 
-var viewFates = []string{"drop", "add", "moddef", "modcmt", "modidx", "same"}
+var viewFates = []string{"drop", "add", "moddef", "modcmt", "modidx-add", "modidx-drop", "modidx-mod", "same"}
 
 func modView(name, fate string, rng *rand.Rand) (from, to *Vw) {
 	cols := []Col{{N: "a", T: "int"}, {N: "b", T: "int"}}
@@ -159,12 +164,12 @@ func modView(name, fate string, rng *rand.Rand) (from, to *Vw) {
 		a, b := mk("SELECT 1 AS a, 2 AS b"), mk("SELECT 1 AS a, 2 AS b")
 		b.Cols[1].Cmt = "note"
 		return a, b
-	case "modidx":
+	case "modidx-add", "modidx-drop", "modidx-mod":
 		a, b := mk("SELECT 1 AS a, 2 AS b"), mk("SELECT 1 AS a, 2 AS b")
-		switch rng.IntN(3) {
-		case 0:
+		switch fate {
+		case "modidx-add":
 			b.Idx = []Idx{{N: "vi_add_" + name, Cols: []string{"a"}}}
-		case 1:
+		case "modidx-drop":
 			a.Idx = []Idx{{N: "vi_drop_" + name, Cols: []string{"a"}}}
 		default:
 			a.Idx = []Idx{{N: "vi_mod_" + name, Cols: []string{"a"}}}
@@ -211,7 +216,7 @@ func genPair(rng *rand.Rand, n int) Pair {
 		fa.Tbls = append(fa.Tbls, plainTable("t_drop", false), plainTable("t_same", false))
 		ta.Tbls = append(ta.Tbls, plainTable("t_same", false), plainTable("t_add", true))
 		addMod("t_all", tableOps)
-		for _, op := range tableOps {
+		for _, op := range append(append([]string(nil), tableOps...), "addpk", "droppk") {
 			addMod("t_"+op, []string{op})
 		}
 		for _, f := range viewFates {
@@ -474,7 +479,7 @@ func nested(c schema.Change) ([]schema.Change, bool) {
 }
 
 // entries flattens a change set, applying the reference filter when skip is non-nil: a change whose
-// kind is skipped is dropped at whatever level it sits; a ModifyTable left without changes disappears;
+// kind is skipped is dropped at whatever level it sits; a ModifyTable / ModifySchema left without changes disappears;
 // a ModifyView left without changes disappears unless the view definition itself changed.
 func entries(cs []schema.Change, prefix, level string, skip map[string]bool) []Entry {
 	var out []Entry
@@ -492,7 +497,7 @@ func entries(cs []schema.Change, prefix, level string, skip map[string]bool) []E
 		sub := entries(in, h+" > ", k, skip)
 		if len(sub) == 0 {
 			switch c := c.(type) {
-			case *schema.ModifyTable:
+			case *schema.ModifyTable, *schema.ModifySchema:
 				if skip != nil {
 					continue
 				}
